@@ -110,7 +110,8 @@ def run(rep: common.Report, tier: str, seed: int, replay=None) -> int:
         rep.count(len(m.elements))
         rep.nontrivial(("flux", lu, fu))
     # ---------- the same physical problem in three unit systems ----------
-    systems = [("um", "mT", "uA"), ("nm", "uT", "nA"), ("mm", "T", "mA")]
+    # matched and unmatched prefixes (uA/um = nA/nm = mA/mm = 1 A/m would hide a missing prefix conversion)
+    systems = [("um", "mT", "uA"), ("nm", "uT", "nA"), ("mm", "T", "mA"), ("um", "T", "mA"), ("nm", "mT", "uA")]
     B_T, I_A = 0.4e-3, 2.0e-6
     for screening in ((False, True) if tier == "thorough" else (False, True)):
         frames, phys, failed = {}, {}, {}
@@ -119,18 +120,19 @@ def run(rep: common.Report, tier: str, seed: int, replay=None) -> int:
                 dev = device_in(base, lu)
                 opts = runs.make_options(td, solve_time=0.25 if not screening else 0.06, dt_init=2e-3, dt_max=2e-2, save_every=10,
                                          field_units=fu, current_units=cu, include_screening=screening, screening_tolerance=1e-3,
-                                         output_file=f"{td}/r_{lu}_{int(screening)}.h5")
+                                         output_file=f"{td}/r_{lu}_{fu}_{cu}_{int(screening)}.h5")
                 try:
                     sol = tdgl.solve(dev, opts, applied_vector_potential=B_T / FU[fu],
                                      terminal_currents={"source": I_A / CU[cu], "drain": -I_A / CU[cu]})
                 except RuntimeError as e:
-                    failed[lu] = str(e)[:160]
+                    failed[f"{lu}/{fu}/{cu}"] = str(e)[:160]
                     continue
                 with h5py.File(sol.path, "r") as f:
-                    frames[lu] = [{k: np.array(f["data"][key][k]) for k in ("psi", "mu", "supercurrent", "normal_current")}
+                    key_ = "um" if (lu, fu, cu) == systems[0] else f"{lu}/{fu}/{cu}"
+                    frames[key_] = [{k: np.array(f["data"][key][k]) for k in ("psi", "mu", "supercurrent", "normal_current")}
                                   for key in sorted(f["data"], key=int)]
                 K = (sol.supercurrent_density + sol.normal_current_density).to("A / m").magnitude
-                phys[lu] = K
+                phys[key_] = K
             if failed and len(failed) < len(systems):
                 rep.violation("the same physical problem runs in one unit system and fails in another",
                               {"screening": screening, "failed": failed, "ran": sorted(frames), "B_tesla": B_T, "I_amp": I_A})
@@ -139,9 +141,7 @@ def run(rep: common.Report, tier: str, seed: int, replay=None) -> int:
             if "um" not in frames:
                 continue
             ref = frames["um"]
-            for lu in ("nm", "mm"):
-                if lu not in frames:
-                    continue
+            for lu in [k_ for k_ in frames if k_ != "um"]:
                 case = {"units": lu, "screening": screening, "frames": len(ref)}
                 if len(frames[lu]) != len(ref):
                     rep.violation("the same physical problem recorded a different number of frames in another unit system", case)
